@@ -3,7 +3,7 @@ use crate::corpus;
 use crate::drv::*;
 use crate::evidence::Report;
 use crate::gen::{GenStream, StreamBuilder};
-use crate::props::c01::{canonical_cfgs, Cfg};
+use crate::props::c01::{canonical_cfgs_ext, Cfg};
 use crate::refmodel::*;
 use crate::util::{hex, par_for, unhex};
 use crate::{guarded, streams, watchdog};
@@ -126,7 +126,7 @@ pub fn run(tier: &str) -> i32 {
     let mut evals = 0u64;
     let mut nontrivial = 0u64;
     // ---- producer ----------------------------------------------------------------------------
-    let (cfgs, _) = canonical_cfgs(&[8, 9, 11, 12, 14, 15, 1, 255, 0], true);
+    let (cfgs, _) = canonical_cfgs_ext(&[8, 9, 11, 12, 14, 15, 1, 255, 0, 16, 17, 20, 23, 24, 127, 128], true, false);
     let zcfgs: Vec<Cfg> = cfgs.into_iter().filter(|c| c.zlib).collect();
     let mut inputs = corpus::small_inputs(if th { 9 } else { 7 }, 4, 5);
     inputs.extend(corpus::medium_inputs());
